@@ -256,13 +256,12 @@ Inductive chain_ans := CErr | CBlocks (hs : list Z).
     any) and its outcome; [Done hs] = the heights of the blocks written back *)
 Definition sres := (option (Z * Z) * out (list Z))%type.
 
-(** req.End-req.Start > 256 || req.End < req.Start, in int64 *)
-Definition range_bad (s e : Z) : bool := (256 <? wrap64 (e - s)) || (e <? s).
+(** req.Start < 0 || req.End < req.Start || req.End-req.Start > 256, in int64
+    (the start is tested first: with 0 <= Start <= End the difference cannot wrap) *)
+Definition range_bad (s e : Z) : bool := (s <? 0) || (e <? s) || (256 <? wrap64 (e - s)).
 
 (** what the test is meant to say (spec): at most 257 blocks, as integers *)
 Definition span_ok (s e : Z) : bool := (0 <=? e - s) && (e - s <=? 256).
-(** the int64 difference is not the integer difference *)
-Definition wraps (s e : Z) : bool := negb (wrap64 (e - s) =? e - s).
 
 Definition serve_range (chain : Z -> Z -> out chain_ans) (old : bool) (s e : Z) : sres :=
   if range_bad s e then (None, Dropped D_RANGE)
@@ -299,7 +298,9 @@ Definition serve_new (chain : Z -> Z -> out chain_ans) (r : rd (Z * Z)) : sres :
   end.
 
 (** blockchain.ProcGetBlockDetailsMsg on a chain whose blocks 0..tip exist;
-    [cap] = what the operating system can give to one make (Model.go_make) *)
+    [cap] = what the operating system can give to one make (Model.go_make).
+    Third test: End-Start >= MaxBlockCountPerTime || End-Start < 0 (Start <= End
+    at that point, so a negative int64 difference is a wrapped one) *)
 Definition max_per_time : Z := 1000.
 
 Fixpoint zseq (start : Z) (n : nat) : list Z :=
@@ -308,7 +309,7 @@ Fixpoint zseq (start : Z) (n : nat) : list Z :=
 Definition chain_get (tip cap : Z) (s e : Z) : out chain_ans :=
   if tip <? s then Done CErr
   else if e <? s then Done CErr
-  else if max_per_time <=? wrap64 (e - s) then Done CErr
+  else if (max_per_time <=? wrap64 (e - s)) || (wrap64 (e - s) <? 0) then Done CErr
   else
     let en := if tip <? e then tip else e in
     let count := wrap64 (wrap64 (en - s) + 1) in
